@@ -47,6 +47,8 @@ async def execute(net, hyg, plan):
         if bd:
             rng = random.Random(plan.get("seed", 0))
             w.ctl.delay = lambda op, path, n: rng.choice(bd)
+        if plan.get("write_ack_delay"):
+            w.ctl.delay_after = lambda op, path, n: plan["write_ack_delay"]
         p = RawPeer(net, 2121)
         await p.connect()
         await p.cmd("USER anonymous")
@@ -455,6 +457,17 @@ def gen_cases(tier, seed):
     for verb in ("RETR", "STOR", "LIST"):
         cases.append({"kind": "enum", "plan": {"verb": verb, "size": 2 * bs + 5, "connect": "before", "seed": seed,
                                                "backend_delay": [0.0015], "dir_entries": 8 if verb == "LIST" else 0}})
+    # a back end that acknowledges a write late (the bytes are already in the file when the ABOR lands)
+    for verb, size in (("STOR", 3 * bs + 17), ("APPE", 2 * bs + 1), ("STOR", 70000)):
+        cases.append({"kind": "enum", "stride": 2 if tier == "quick" else 1,
+                      "plan": {"verb": verb, "size": size, "connect": "before", "seed": seed, "write_ack_delay": 0.0015, "followup": "pwd+retr",
+                               "block_size": 4096 if size < 70000 else 8192}})
+    # an unlimited wait for the data connection (wait_future_timeout=None): ABOR while the transfer still waits
+    for verb in ("RETR", "STOR", "LIST", "MLSD"):
+        for mode in ("after", "never"):
+            for fu in ("pwd+retr", "pasv+list", "reuse+retr"):
+                cases.append({"kind": "enum", "plan": {"verb": verb, "size": bs + 1, "connect": mode, "seed": seed, "followup": fu,
+                                                       "server_kwargs": {"wait_future_timeout": None}, "dir_entries": 5 if verb in ("LIST", "MLSD") else 0}})
     # executor-based back end: the ABOR finds the worker inside a file operation that runs in a thread
     for verb, size in (("RETR", 3 * bs + 17), ("STOR", 3 * bs + 17)) if tier == "quick" else (("RETR", 3 * bs + 17), ("STOR", 3 * bs + 17), ("RETR", 70000), ("APPE", bs + 1), ("LIST", 0)):
         cases.append({"kind": "enum", "stride": 3 if tier == "quick" else 1,
